@@ -764,11 +764,10 @@ func (vm *VM) initCurrentFrame() {
 	vm.curFrame = &(vm.frames[0])
 	vm.curFrame.fn = vm.bytecode.Main
 
-	if vm.curFrame.fn.Free != nil {
-		// Assign free variables if exists in compiled function.
-		// This is required to run compiled functions returned from VM using RunCompiledFunction().
-		vm.curFrame.freeVars = vm.curFrame.fn.Free
-	}
+	// Assign free variables if exists in compiled function.
+	// This is required to run compiled functions returned from VM using RunCompiledFunction().
+	// Assigned unconditionally so that free variables of an earlier run never survive in frame 0.
+	vm.curFrame.freeVars = vm.curFrame.fn.Free
 
 	vm.curFrame.errHandlers = nil
 	vm.curFrame.basePointer = 0
